@@ -153,12 +153,10 @@ def correspondence(ctx):
     cases, terms, runs = [], [], []
     for i in range(n):
         case = _case(ctx.rng)
+        case["metrics"] = case["metrics"][:2]          # the pair/guard comparison does not need many metrics
         fails, raised, got_pairs = check_case(case)
-        ctx.evaluations += 1
         ctx.count("backend:" + case["backend"])
         ctx.count("ids:" + type(case["variants"][0]).__name__)
-        for f in fails:
-            ctx.violations.append({"what": f.split(":")[0][:80], "detail": f, "input": case})
         if raised is None:
             continue
         # model: integers standing for the sorted ids
@@ -187,6 +185,16 @@ def correspondence(ctx):
 
 def oracle(ctx, deep=False):
     import tea_tasting as tt
+    # the property itself on the real code: pairs, guard, order, entry = stand-alone metric, declared statistics
+    for i in range(ctx.n(60, 1500) * (2 if deep else 1)):
+        case = _case(ctx.rng)
+        fails, raised, got_pairs = check_case(case)
+        ctx.evaluations += 1
+        ctx.count("oracle:backend:" + case["backend"])
+        for f in fails:
+            ctx.violations.append({"what": f.split(":")[0][:80], "detail": f, "input": case})
+        if len(ctx.violations) > 30:
+            break
     # Experiment.solve_power versus each metric's own solve_power
     for i in range(ctx.n(15, 300)):
         rng = ctx.rng
